@@ -1222,6 +1222,33 @@ func runLoaderSwitchesRule(c *Ctx, rule string) {
 			}
 		}
 	}
+	// the structured (YAML) configuration goes through environment substitution exactly once: "$$" is the documented
+	// escape for a literal dollar (rewriteTarget: /v1/$$1), and a second pass would consume what the first one produced
+	subst := 0
+	for _, fn := range c.P.ModFns {
+		if prog.Short(prog.FnPkg(fn).Path()) != "pkg/apis/options" {
+			continue
+		}
+		for _, b := range fn.Blocks {
+			for _, in := range b.Instrs {
+				ci, ok := in.(ssa.CallInstruction)
+				if !ok {
+					continue
+				}
+				sc := ci.Common().StaticCallee()
+				if sc == nil || sc.Pkg == nil || !strings.HasSuffix(sc.Pkg.Pkg.Path(), "/envsubst") {
+					continue
+				}
+				subst++
+				n++
+				key := "loader-envsubst|" + fnKey(fn)
+				if inLoopWithout(b, fn.Blocks[0]) || subst > 1 {
+					bad = true
+					c.bad(rule, key, in, "environment substitution is applied to the configuration more than once (in a loop, or at a second site): the documented escape $$ for a literal dollar survives one pass only, so capture-group references in rewrite targets ($$1) and regular expressions are blanked", nil, 0)
+				}
+			}
+		}
+	}
 	switch {
 	case n == 0:
 		c.R.Unknown(rule, "loader-switch|none", "-", "no viper call found in pkg/apis/options")
